@@ -61,7 +61,7 @@ function rg_answer($req, $res, $who) {
   else if ($a == "error") { $res->error("e" . $x, 404); }
   else if ($a == "format") { $res->format(422, "f" . $x, ["x" => $x, "by" => $who]); }
   else if ($a == "json") { $res->json(["x" => $x, "by" => $who]); }
-  else if ($a == "throw") { throw new Exception("t" . $x); }
+  else if ($a == "throw") { throw new Exception("thrown"); } // constant text: every built-in exception instance shares ONE message object (known finding builtin-exception:shared-message), so a per-request text would make this stream re-report that defect under its own signature
   else { $res->write("w" . $x . $who); }
 }
 class Mw3 {
